@@ -49,7 +49,7 @@ def behaviours(params: dict, simulate: int = 0, seed: int = 0, depth: int = 200,
         extra = []
         if simulate:
             extra = ['-simulate', f'num={simulate}', '-depth', str(depth), '-seed', str(seed)]
-        r = tlc.run_model('WalkGen', name, workers=workers, timeout=timeout, extra=extra, heap='2g')
+        r = tlc.run_model('WalkGen', name, workers=workers, timeout=timeout, extra=extra, heap='1g')
     finally:
         os.unlink(cfgp)
     if r['violated']:
